@@ -323,27 +323,53 @@ func (c *Ctx) Callees(cc *ssa.CallCommon) []*ssa.Function {
 	if f := resolveFuncVar(cc.Value, 0); f != nil {
 		return []*ssa.Function{f}
 	}
-	// function values of a named module func type (functional options): every function literal whose
-	// enclosing function returns that named type
+	// function values of a named module func type (functional options, handler selectors): every function value that
+	// a module function returns as that named type — a function literal, a named function, or a method value (the
+	// bound-method wrapper, whose parameters line up with the call's arguments)
 	if nt, ok := cc.Value.Type().(*types.Named); ok {
 		if _, isSig := nt.Underlying().(*types.Signature); isSig && nt.Obj().Pkg() != nil && strings.HasPrefix(nt.Obj().Pkg().Path(), modPath) {
-			var out []*ssa.Function
-			for _, f := range c.Funcs {
-				par := f.Parent()
-				if par == nil {
-					continue
-				}
-				res := par.Signature.Results()
-				for i := 0; i < res.Len(); i++ {
-					if types.Identical(res.At(i).Type(), nt) {
-						out = append(out, f)
-					}
-				}
-			}
-			return out
+			return c.valuesOfFuncType(nt)
 		}
 	}
 	return nil
+}
+
+// valuesOfFuncType: the functions returned as the named function type nt anywhere in the module.
+func (c *Ctx) valuesOfFuncType(nt *types.Named) []*ssa.Function {
+	if c.ftMemo == nil {
+		c.ftMemo = map[*types.Named][]*ssa.Function{}
+	}
+	if out, ok := c.ftMemo[nt]; ok {
+		return out
+	}
+	var out []*ssa.Function
+	seen := map[*ssa.Function]bool{}
+	for _, f := range c.Funcs {
+		res := f.Signature.Results()
+		for i := 0; i < res.Len(); i++ {
+			if !types.Identical(res.At(i).Type(), nt) {
+				continue
+			}
+			for _, r := range returnsOf(f) {
+				if i >= len(r.Results) {
+					continue
+				}
+				var g *ssa.Function
+				switch x := stripConv(returnedValue(r, i)).(type) {
+				case *ssa.Function:
+					g = x
+				case *ssa.MakeClosure:
+					g, _ = x.Fn.(*ssa.Function)
+				}
+				if g != nil && !seen[g] {
+					seen[g] = true
+					out = append(out, g)
+				}
+			}
+		}
+	}
+	c.ftMemo[nt] = out
+	return out
 }
 
 func (c *Ctx) globalInit(g *ssa.Global) *ssa.Function {
@@ -834,7 +860,8 @@ func (c *Ctx) caseTable(f *ssa.Function, env Env, scrut func(path string) bool) 
 			if !ok || kc.Value == nil {
 				continue
 			}
-			if !scrut(c.Path(x, env)) {
+			// the scrutinee as written, or as the single-exit helper that produced it wrote it
+			if !scrut(c.Path(x, env)) && !scrut(c.InlPath(x, env)) {
 				continue
 			}
 			for _, e := range boolEdges(bo, true) {
@@ -1140,7 +1167,7 @@ func (c *Ctx) identityParam(g *ssa.Function) int {
 // caller's arguments — `x := helper(a)` reads like the code the helper was extracted from.
 func (c *Ctx) inlinedResult(cl *ssa.Call, idx int, env Env, d int) (string, bool) {
 	g := cl.Call.StaticCallee()
-	if g == nil || !inModule(g) || g.Blocks == nil || d > 8 || g.Object() == nil || g.Object().Exported() || g.Signature.Recv() != nil {
+	if g == nil || !inModule(g) || g.Blocks == nil || d > 8 || g.Object() == nil || g.Object().Exported() {
 		return "", false
 	}
 	if _, leaf := termLeaves[g.String()]; leaf {
